@@ -4,6 +4,7 @@ import (
 	"fmt"
 	"math"
 	"sort"
+	"strings"
 	"testing"
 
 	"gonum.org/v1/gonum/blas"
@@ -251,4 +252,145 @@ func TestLasr(t *testing.T) {
 			Seed:   drawSeed(t),
 		}
 	}, checkLasr)
+}
+
+// ---- Dlarft (forward) ------------------------------------------------------------------
+//
+// Not named in the property, but every blocked reduction and back-transformation
+// under it (Dorgqr/Dorglq/Dormqr/Dormlq behind Dorgbr, Dormbr, Dorghr, Dormhr,
+// Dorgtr, Dgehrd, Dgesvd, the deflation window of Dlaqr23) multiplies by
+// I - V*T*Vᵀ with T from Dlarft. The generator concentrates on what the blocked
+// callers produce for degenerate matrices: reflector vectors with trailing zeros.
+
+type larftCase struct {
+	N, K, Pad int
+	RowWise   bool
+	Zeros     []int // number of trailing zeros of reflector i (clamped)
+	TauZero   []bool
+	Seed      uint64
+}
+
+// larftRun builds V and tau, calls Dlarft(Forward, ...) and returns
+// ||(I - V T Vᵀ) - H_0 H_1 ... H_{k-1}||_F together with the acceptance bound.
+func larftRun(c larftCase) (diff, tol float64, f *vk.Failure) {
+	rng := vk.NewSplitMix(c.Seed)
+	n, k := c.N, c.K
+	vm := newMat(n, k) // column i = v_i, unit lower trapezoidal
+	tau := make([]float64, k)
+	for i := 0; i < k; i++ {
+		z := 0
+		if i < len(c.Zeros) {
+			z = min(c.Zeros[i], n-1-i)
+		}
+		vm.d[i*k+i] = 1
+		for r := i + 1; r < n-z; r++ {
+			x := rng.Finite()
+			if x == 0 {
+				x = 0.5
+			}
+			vm.d[r*k+i] = x
+		}
+		var s float64
+		for r := i; r < n; r++ {
+			s += vm.d[r*k+i] * vm.d[r*k+i]
+		}
+		tau[i] = 2 / s
+		if i < len(c.TauZero) && c.TauZero[i] {
+			tau[i] = 0
+		}
+	}
+	var v *pmat
+	store := lapack.ColumnWise
+	if c.RowWise {
+		store = lapack.RowWise
+		v = newPmat("v", k, n, n+c.Pad, rng, false).fill(vm.T())
+	} else {
+		v = newPmat("v", n, k, k+c.Pad, rng, false).fill(vm)
+	}
+	tv := newPvec("tau", k, rng, false).fillVec(tau)
+	t := newPmat("t", k, k, k+c.Pad, rng, false)
+	t.mask = func(i, j int) bool { return i <= j }
+	t.zero()
+	if f := runPlain(func() { impl.Dlarft(lapack.Forward, store, n, k, v.data, v.ld, tv.data, t.data, t.ld) }, v, tv, t); f != nil {
+		return 0, 0, f
+	}
+	if f := firstFail(v.same("v-modified"), tv.same("tau-modified"), t.elemsFinite()); f != nil {
+		return 0, 0, f
+	}
+	td := t.dense()
+	for i := 0; i < k; i++ {
+		for j := 0; j < i; j++ {
+			td.d[i*k+j] = 0
+		}
+	}
+	h := eye(n)
+	for i := 0; i < k; i++ {
+		col := make([]float64, n-i)
+		for r := i; r < n; r++ {
+			col[r-i] = vm.d[r*k+i]
+		}
+		applyReflRight(h, i, col, tau[i])
+	}
+	blockH := sub(eye(n), mul(mul(vm, td), vm.T()))
+	nv := frob(vm)
+	return frob(sub(blockH, h)), 50 * float64(k) * eps * (1 + nv*nv), nil
+}
+
+func checkLarft(c larftCase) *vk.Failure {
+	vk.NonTrivial("larft", c.N, c.K, c.Pad, c.RowWise, fmt.Sprint(c.Zeros), fmt.Sprint(c.TauZero), c.Seed)
+	vk.Sample("larft", c)
+	vk.Class(fmt.Sprintf("larft:rowwise=%v", c.RowWise))
+	d, tol, f := larftRun(c)
+	if f != nil {
+		return f
+	}
+	if !(d <= tol) {
+		return vk.Failf("block-reflector", "Dlarft(Forward, rowwise=%v, n=%d, k=%d), trailing zeros %v: ||(I - V T Vᵀ) - H_0...H_{k-1}||_F = %.3g > %.3g", c.RowWise, c.N, c.K, c.Zeros, d, tol)
+	}
+	return nil
+}
+
+func TestLarft(t *testing.T) {
+	vk.Run(t, "larft", vk.Opts{Quick: 1500, Thorough: 60000, NoCrumb: true}, func(t *rapid.T) larftCase {
+		k := rapid.IntRange(1, 8).Draw(t, "k")
+		n := k + 1 + rapid.IntRange(0, 10).Draw(t, "extra")
+		return larftCase{
+			N: n, K: k, Pad: vk.Pad(t, "pad"),
+			RowWise: rapid.Bool().Draw(t, "rowwise"),
+			Zeros:   rapid.SliceOfN(rapid.SampledFrom([]int{0, 0, 0, 1, 2, 3, 5, 100}), k, k).Draw(t, "zeros"),
+			TauZero: rapid.SliceOfN(rapid.SampledFrom([]bool{false, false, false, false, true}), k, k).Draw(t, "tauzero"),
+			Seed:    drawSeed(t),
+		}
+	}, checkLarft)
+}
+
+// dlarftBroken reports whether Dlarft(Forward) mishandles a second reflector
+// with more trailing zeros than the first (known finding larft/block-reflector:
+// 'if i > 1' instead of 'if i > 0' when updating prevlastv). It is a fixed
+// property of the library under test, evaluated once.
+var dlarftBroken = func() bool {
+	for _, rw := range []bool{false, true} {
+		d, tol, f := larftRun(larftCase{N: 7, K: 3, RowWise: rw, Zeros: []int{0, 4, 0}, Seed: 1})
+		if f != nil || !(d <= tol) {
+			return true
+		}
+	}
+	return false
+}()
+
+// viaDlarft re-keys a failure of a sub-check that can reach blocked reflector
+// code (some dimension >= 33: Dormqr/Dormlq switch to Dlarft+Dlarfb above the
+// block size 32, Dorgqr/Dorglq/Dgehrd above the crossover 128) while Dlarft is
+// demonstrably broken in this build. Once Dlarft is repaired the probe passes and
+// nothing is re-keyed.
+func viaDlarft(f *vk.Failure, dims ...int) *vk.Failure {
+	if f == nil || !dlarftBroken || strings.Contains(f.Key, "rescaling-path") || strings.Contains(f.Key, "runtime-fault") || strings.Contains(f.Key, "dlas2-order-ulps") {
+		return f
+	}
+	for _, d := range dims {
+		if d >= 33 {
+			return vk.Failf("blocked-reflectors-while-dlarft-broken", "[%s] %s", f.Key, f.Msg)
+		}
+	}
+	return f
 }
